@@ -221,6 +221,8 @@ func (g *c12Gen) valid() {
 			}
 		}
 	}
+	// ECDH-ES producer path (DeriveKey), direct and +A*KW: the full apu × apv shape grid × curves × enc
+	g.produce()
 	// PBES2: salt lengths 0..64, counts 1..50, default count, CEK 16..64
 	ceks := []int{16, 24, 32, 40, 48, 56, 64}
 	for alg := 0; alg < 3; alg++ {
@@ -621,3 +623,74 @@ func runC12(c *vf.Ctx) {
 }
 
 func c12SearchEnv() string { return os.Getenv("VERIF_SEARCH") }
+
+// ecPair draws two key pairs (a, A), (b, B) on a curve: Priv = a, Pub = B, Priv2 = b, Pub2 = A.
+func (g *c12Gen) ecPair(crv string) (a, B, b, A []byte) {
+	c := c12Curve(crv)
+	mk := func() ([]byte, []byte) {
+		for {
+			x := g.r.Bytes(c12PrivLen[crv])
+			if crv == "P-521" {
+				x[0] &= 1
+			}
+			sk, err := c.NewPrivateKey(x)
+			if err == nil {
+				return sk.Bytes(), sk.PublicKey().Bytes()
+			}
+		}
+	}
+	a, A = mk()
+	b, B = mk()
+	return
+}
+
+// partyShapes: (apu, apv) — absent, empty, equal, different (same / other length), one-sided, long.
+func (g *c12Gen) partyShapes() [][2][]byte {
+	r := g.r
+	x, y := r.Bytes(1+g.lens(12)), r.Bytes(1+g.lens(12))
+	y2 := r.Bytes(len(x))
+	if bytes.Equal(x, y2) {
+		y2[0] ^= 1
+	}
+	long, long2 := r.Bytes(200+g.lens(100)), r.Bytes(300)
+	e := []byte{}
+	return [][2][]byte{
+		{nil, nil}, {e, e}, {nil, e}, {e, nil},
+		{x, x}, {x, y}, {x, y2}, {[]byte("Alice"), []byte("Bob")}, {[]byte("Bob"), []byte("Alice")},
+		{x, nil}, {nil, y}, {x, e}, {e, y},
+		{long, y}, {x, long}, {long, long2}, {long, long},
+	}
+}
+
+func (g *c12Gen) produce() {
+	i := 0
+	reps := 1
+	if g.thor {
+		reps = 4
+	}
+	for rep := 0; rep < reps; rep++ {
+		for _, crv := range c12Curves {
+			for alg := 0; alg <= 3; alg++ {
+				for si, sh := range g.partyShapes() {
+					encs := []string{c12Encs[(si+alg+rep)%6]}
+					if g.thor || alg == 0 && si%4 == 0 {
+						encs = c12Encs
+					}
+					for _, enc := range encs {
+						a, B, b, A := g.ecPair(crv)
+						typ := "ecdh"
+						if crv != "X25519" && i%2 == 1 {
+							typ = "ecdsa"
+						}
+						i++
+						g.add(c12Case{Stream: "valid", Prim: "ecdhes", Op: "produce", Alg: alg, Crv: crv, KeyTyp: typ, Priv: a, Pub: B, Priv2: b, Pub2: A,
+							Enc: enc, APU: sh[0], APV: sh[1]})
+					}
+				}
+			}
+			a, B, b, A := g.ecPair(crv)
+			g.add(c12Case{Stream: "hostile", Prim: "ecdhes", Op: "produce", Alg: 1, Crv: crv, KeyTyp: "ecdh", Priv: a, Pub: B, Priv2: b, Pub2: A,
+				Enc: "A128GCM", APU: []byte("a"), APV: []byte("b"), NoUse: true, Mut: "key-ops"})
+		}
+	}
+}
